@@ -16,9 +16,11 @@ Full statement (DESIGN 4/C04): for every template, `createProgram … = .ok (som
 Proved here: the program-side equalities for **every** `Loop` (`duration_eq_pieces`, `duration_eq_play`,
 `no_accumulation`), the closed form of `ForLoopPulseTemplate.duration` for every integer range with
 `step ≠ 0` (`forloop_duration_closed_form`, with `range_spec` pinning down Python's `range`), and
-`duration_agree_partial` (program duration = duration of the denoted pulse) for the stage-1 constructor
-subset.  `templateDuration = prog.duration` for all templates and `(toWaveform prog).duration` are
-established by the correspondence only (`toWaveform` lemmas live with C05).
+`duration_agree_partial` (program duration = duration of the denoted pulse) for `Stage3R` — the proved atoms
+composed by ALL seven composite constructors, no positivity assumption —, `duration_agree_single_partial` for every
+`to_single_waveform` set (C05), and `template_duration_agree_partial`: `templateDuration = prog.duration` for all
+composite constructors over atoms at which it holds (`Live`; proved for `ConstantPT` / `FunctionPT` that keep a
+channel).  `(toWaveform prog).duration` is C05's `toWaveform_duration`.
 All durations are `Rat`: there is no rounding in the model at all — that the implementation computes the same
 rationals is what the correspondence run establishes on every check.
 -/
@@ -62,7 +64,8 @@ theorem no_accumulation (n : Nat) (ms : List Window) (cs : List Loop) :
 theorem empty_is_zero (n : Nat) (ms : List Window) : (Loop.mk n none ms []).duration = 0 := by
   simp [duration_none, Loop.durationList]
 
-/-- **durations agree (partial)**: for stage-1 templates the program lasts exactly as long as the denoted pulse -/
+/-- **durations agree (partial)**: for `Stage3R` templates (all composite constructors over the proved atoms; no
+positivity assumption, no PF-11 exclusion) the program lasts exactly as long as the denoted pulse -/
 theorem duration_agree_partial {pt : PT} (hs : Stage3R pt) (params : List (String × Rat))
     (mm : Option (List (MName × Option MName))) (cm : List (Chan × Option Chan)) (prog : Loop) (P : Pulse)
     (hprog : createProgram pt params mm cm [] = .ok (some prog))
@@ -71,7 +74,7 @@ theorem duration_agree_partial {pt : PT} (hs : Stage3R pt) (params : List (Strin
   have h := (createProgram_relWT_basic hs.basic params mm cm (some prog) P hprog hden).1
   exact ⟨h, by rw [← duration_eq_pieces, h], by rw [← duration_eq_play, h]⟩
 
-/-- **durations agree incl. time reversal (partial)**: stage-1 subset extended by `TimeReversalPT`, no positivity
+/-- **durations agree incl. the empty program (partial)**: `Stage3R`, no positivity
 assumption; an empty program corresponds to a denoted duration of zero. -/
 theorem duration_agree_reversal_partial {pt : PT} (hs : Stage3R pt) (params : List (String × Rat))
     (mm : Option (List (MName × Option MName))) (cm : List (Chan × Option Chan)) (prog? : Option Loop) (P : Pulse)
